@@ -18,6 +18,7 @@ int event_debug_mode_on_ = 0;
 #endif
 
 /* ---- activations ---------------------------------------------------------- */
+#ifndef VP_OWN_ACTIVE   /* a harness may record activations its own way: define VP_OWN_ACTIVE and event_active_nolock_() */
 #ifndef VP_NACT
 #define VP_NACT 8
 #endif
@@ -32,6 +33,7 @@ void event_active_nolock_(struct event *ev, int res, short ncalls)
 /* how often / with which (or-ed) result flags was `ev` activated */
 static int vp_act_count(const struct event *ev) { int i, n = 0; for (i = 0; i < vp_nact && i < VP_NACT; i++) if (vp_act[i].ev == ev) n++; return n; }
 static int vp_act_res(const struct event *ev) { int i, r = 0; for (i = 0; i < vp_nact && i < VP_NACT; i++) if (vp_act[i].ev == ev) r |= vp_act[i].res; return r; }
+#endif
 
 /* ---- signal back end stand-in --------------------------------------------- */
 #ifndef VP_HAVE_SIGNAL_C
@@ -68,19 +70,8 @@ long evutil_tv_to_msec_(const struct timeval *tv)
 }
 #endif
 
-/* ---- typed evmap entries (see typed_alloc.h) ----------------------------------- */
-#ifdef VP_TYPED_ALLOC_H_
-struct vp_evmap_io_ent { struct evmap_io io; long fdinfo; };   /* fdinfo_len <= 8 in every back end */
-static void *vp_calloc_evmap(size_t n, size_t sz)
-{
-	void *q;
-	vp_alloc_calls++;
-	if (n == 1 && sz >= sizeof(struct evmap_io) && sz <= sizeof(struct vp_evmap_io_ent)) q = calloc(1, sizeof(struct vp_evmap_io_ent));
-	else q = calloc(n, sz);
-	__CPROVER_assume(q != NULL);
-	return q;
-}
-#endif
+/* ---- typed evmap entries (see typed_alloc.h) */
+#include "typed_evmap.h"
 
 /* ---- the base --------------------------------------------------------------- */
 static struct event_base *vp_iobase_new(const struct eventop *ops, int flags, int with_lock)
